@@ -139,14 +139,23 @@ def run_model(trace_text):
              res[i].get("M", {"verdict": "HOLDS"})) for i in sorted(res)]
 
 
-def classify(prop, t, m):
+NOT_REPLAYABLE = {"memc"}   # concurrent histories: the recorded history itself is the replay
+
+
+def domain_of(lines):
+    m = re.search(r"\bdomain=(\w+)", lines[0]) if lines else None
+    return m.group(1) if m else "mem"
+
+
+def classify(prop, t, m, domain=None):
     """What does this trace mean for `prop`?  'ok' | ('fails', clause, step) | ('reject', field, step)"""
+    domain = domain or PROPS[prop]["domain"]
     relevant_mon = PROPS[prop].get("monitor_props", [prop])
     if m["verdict"] == "FAILS" and m.get("prop") in relevant_mon:
         return ("fails", m.get("clause", "?"), int(m.get("step", 0)), m.get("detail", ""))
     if t["verdict"] == "REJECT":
         field = t.get("field", "?")
-        owners = FIELD_PROPS.get(PROPS[prop]["domain"], {}).get(field)
+        owners = FIELD_PROPS.get(domain, {}).get(field)
         if field in PROPS[prop].get("reject_is_fail_fields", []):
             return ("fails", "differs_from_documented_algorithm:" + field, int(t.get("step", 0)),
                     f"model={t.get('model')} impl={t.get('impl')}")
@@ -173,7 +182,7 @@ def same_failure(prop, cls, lines, domain):
     res = run_model(out)
     if not res:
         return None
-    c = classify(prop, *res[0])
+    c = classify(prop, *res[0], domain=domain)
     if c[0] == cls[0] and c[1] == cls[1]:
         return split_traces(out)[0], c
     return None
@@ -183,6 +192,8 @@ def shrink(prop, cls, lines, domain, budget_s=30):
     """Delta-debug the op lines (the real code is re-run at every step)."""
     t0 = time.time()
     best = lines
+    if domain in NOT_REPLAYABLE:
+        return lines, cls
     r = same_failure(prop, cls, best, domain)
     if r is None:
         return lines, cls  # not reproducible through replay: keep the original
@@ -280,11 +291,12 @@ def main():
 
     if a.replay:
         text = "\n".join(l for l in open(a.replay).read().splitlines() if not l.startswith("#"))
-        out = harness_replay(domain, text.splitlines())
+        rdom = domain_of(text.splitlines())
+        out = text + "\n" if rdom in NOT_REPLAYABLE else harness_replay(rdom, text.splitlines())
         res = run_model(out)
         rc = 0
         for i, (t, m) in enumerate(res):
-            c = classify(prop, t, m)
+            c = classify(prop, t, m, domain=rdom)
             print(f"replay trace {i}: T={t} M={m} -> {c}")
             if c[0] != "ok":
                 rc = 1
@@ -306,15 +318,16 @@ def main():
         corpus_dir = f"{VERIF}/corpus/{prop}"
         if os.path.isdir(corpus_dir):
             for fn in sorted(os.listdir(corpus_dir)):
-                campaigns.append(("corpus:" + fn, None, os.path.join(corpus_dir, fn)))
+                campaigns.append(("corpus:" + fn, None, os.path.join(corpus_dir, fn), domain))
         for c in P["campaigns"][tier]:
-            campaigns.append((c["name"], c["args"], None))
-        for name, args, corpus_file in campaigns:
+            campaigns.append((c["name"], c["args"], None, c.get("domain", domain)))
+        for name, args, corpus_file, cdom in campaigns:
             if corpus_file:
                 text = "\n".join(l for l in open(corpus_file).read().splitlines() if not l.startswith("#"))
-                out = harness_replay(domain, text.splitlines())
+                cdom = domain_of(text.splitlines())
+                out = text + "\n" if cdom in NOT_REPLAYABLE else harness_replay(cdom, text.splitlines())
             else:
-                rc, out = sh([HARNESS, domain, f"seed={seed}"] + args, timeout=7200)
+                rc, out = sh([HARNESS, cdom, f"seed={seed}"] + args, timeout=7200)
                 if rc != 0:
                     notes.append(f"campaign {name}: harness exited {rc}: {out[-300:]}")
             traces = split_traces(out)
@@ -331,19 +344,19 @@ def main():
                     distinct.add(key)
                 if len(samples) < 3 and len(lines) > 3:
                     samples.append(lines[:12])
-                c = classify(prop, t, m)
+                c = classify(prop, t, m, domain=cdom)
                 if c[0] == "ok":
                     accepted += 1
                 else:
-                    failing.append((c, lines))
+                    failing.append((c, lines, cdom))
 
     # decide
     seen_sig = set()
-    for cls, lines in failing[:200]:
+    for cls, lines, fdom in failing[:200]:
         sig0 = (cls[0], cls[1], op_kind(lines[min(len(lines) - 1, 1 + cls[2])]))
         if sig0 in seen_sig:
             continue
-        small, scls = shrink(prop, cls, lines, domain, budget_s=20 if tier == "quick" else 60)
+        small, scls = shrink(prop, cls, lines, fdom, budget_s=20 if tier == "quick" else 60)
         opk = op_kind(small[min(len(small) - 1, 1 + scls[2])])
         sig = (scls[0], scls[1], opk)
         seen_sig.add(sig0)
@@ -360,7 +373,7 @@ def main():
         else:
             path = write_replay(prop, tier, seed, "correspondence-broken", f"field={scls[1]}", scls[3], small,
                                 note=f"model and implementation disagree; monitors of {prop} hold on this trace; "
-                                     f"correspondence {P['proof_module']}/Driver.{domain} no longer checks")
+                                     f"correspondence {P['proof_module']}/Driver.{fdom} no longer checks")
             violations.append((path, " no-failing-input-found"))
 
     if proof_broken:
